@@ -120,3 +120,24 @@ def _no_markup_chars(args, result):
 
 contract('mapproxy.util.escape:escape_html', props=['C18'], verify=False, types=dict(data='str'), returns='str',
          ensures=[_no_markup_chars], fuzz_gen=_gen_text, bounded=dict(n=5000, seconds=8))
+
+
+# ---- every service: a RequestError raised while parsing or handling becomes the rendered error document ---------------------------
+def _request_error_rendered(ex, st, post, result):
+    import z3
+    rend = T.evs(st, 'render')
+    raised = [e for e in st.trace if e.raised == 'RequestError']
+    ok = (not raised and not rend) or (len(raised) == 1 and len(rend) == 1 and result is rend[0][1].result)
+    yield ('request_error_becomes_its_document', z3.BoolVal(bool(ok)),
+           'a RequestError from the request parser or from the handler never escapes: the answer is e.render(); without an '
+           'error the handler result is returned unchanged')
+
+
+cls('mapproxy.service.base:Server', fields={})
+contract('mapproxy.service.base:Server.handle', props=['C18'],
+         types=dict(req='opaque'), returns='opaque', default_callee='opaque',
+         opaque_spec={'parse_request': {'raises': ['RequestError']}, 'handler': {'raises': ['RequestError']},
+                      'getattr': {'pure': True}, 'render': {'pure': True}},
+         opaque=['parse_request'],
+         raises={},
+         trace=[_request_error_rendered])
